@@ -259,7 +259,10 @@ class NDNApp:
                 self.logger.warning('Unable to decode received packet')
                 return
             if lp_pkt.nack is not None:
+                # NackReason is optional in NDNLPv2; an absent reason means None(0), it is still a Nack
                 nack_reason = lp_pkt.nack.nack_reason
+                if nack_reason is None:
+                    nack_reason = ndnlp.NackReason.NONE
             else:
                 nack_reason = None
             pit_token = lp_pkt.pit_token
